@@ -96,7 +96,8 @@ def replay(job):
             hooked.append("prehook" if "pre_hook" in (e.get("path") or "") else "posthook")
         elif e.get("ev") == "rewrite.write":
             hooked.append("write")
-    return dict(ev="steps", case=conf, exit=r.exit, changed=before != after, log=log, old=OLD, new="1.2.4", exc=r.exc or "", hooked=hooked,
+    objs = [dict(name=e[1], argv=list(e[2])) for e in raw if e[0] == "cmd" and e[1] in ("tag", "tag_light", "push", "push_tag")]
+    return dict(ev="steps", case=conf, exit=r.exit, changed=before != after, log=log, old=OLD, new="1.2.4", exc=r.exc or "", hooked=hooked, objs=objs, remote_name=["origin", "upstream"][seed % 2],
                 dbg="%s: bumpver %s" % ({k: v for k, v in conf.items() if v not in (False, "unset", "absent", "none")}, " ".join(args)))
 
 
